@@ -423,3 +423,53 @@ Proof.
   - apply (snoc_forallb (fun a b => r_id a <? r_id b) rows _ H1). cbn [r_id]. apply next_id_above.
   - apply (snoc_forallb (fun a b => (r_tsb a <=? r_tsb b)%Z) rows _ H2). exact H3.
 Qed.
+
+(* ------------------------------------------------------------------ leading blank and !! *)
+Lemma space_led_step : forall bang prev typed, starts_with_space typed = true ->
+  session_step bang prev typed = (None, prev).
+Proof.
+  intros bang prev typed H. unfold session_step. destruct (is_empty (trim typed)); [reflexivity|].
+  rewrite H. reflexivity.
+Qed.
+
+(** lines starting with a blank have no effect at all on what a session records, whatever the !! expander does *)
+Lemma space_led_run : forall bang typed prev,
+  session_run bang prev typed = session_run bang prev (filter (fun t => negb (starts_with_space t)) typed).
+Proof.
+  induction typed as [|t typed IH]; intro prev; [reflexivity|].
+  cbn [filter]. destruct (starts_with_space t) eqn:E; cbn [negb].
+  - cbn [session_run]. rewrite (space_led_step bang prev t E). apply IH.
+  - cbn [session_run]. destruct (session_step bang prev t) as [[l|] p]; [f_equal|]; apply IH.
+Qed.
+
+(** every recorded text is the expansion of a typed line that does not start with a blank *)
+Lemma recorded_origin : forall bang typed prev l, In l (session_run bang prev typed) ->
+  exists t p, In t typed /\ starts_with_space t = false /\ l = bang p t.
+Proof.
+  induction typed as [|t typed IH]; intros prev l H; [contradiction|].
+  cbn [session_run] in H. unfold session_step in H.
+  destruct (is_empty (trim t)).
+  - destruct (IH _ _ H) as (t' & p & H1 & H2 & H3). exists t', p. intuition.
+  - destruct (negb (starts_with_space t) && negb (str_eqb (bang prev t) prev)) eqn:E.
+    + destruct H as [<-|H].
+      * apply andb_true_iff in E as [E _]. apply negb_true_iff in E. exists t, prev. intuition.
+      * destruct (IH _ _ H) as (t' & p & H1 & H2 & H3). exists t', p. intuition.
+    + destruct (IH _ _ H) as (t' & p & H1 & H2 & H3). exists t', p. intuition.
+Qed.
+
+(** a line without leading blank is recorded as its EXPANSION (unless that equals previous_cmd) *)
+Lemma expanded_recorded : forall bang prev t, starts_with_space t = false -> trim t <> [] ->
+  bang prev t <> prev -> session_step bang prev t = (Some (bang prev t), bang prev t).
+Proof.
+  intros bang prev t Hs Hb Hn. unfold session_step.
+  destruct (is_empty (trim t)) eqn:Et; [destruct (trim t); [contradiction|discriminate]|].
+  rewrite Hs. apply str_eqb_neq in Hn. rewrite Hn. reflexivity.
+Qed.
+
+Lemma bang_unchanged : forall tokenize prev line,
+  (has_bb line = false \/ prev = []) -> extend_bangbang tokenize prev line = line.
+Proof.
+  intros tokenize prev line [H| ->]; unfold extend_bangbang.
+  - now rewrite H.
+  - destruct (negb (has_bb line)); reflexivity.
+Qed.
